@@ -172,7 +172,10 @@ def _permitted(ctx, which):
     return [5, 1, 20, 21], [5, 1, 20, 21]
 
 
-def h_commission(ctx, N, readdress, dry_run, which, nostore):
+def h_commission(ctx, N, readdress, dry_run, which, nostore, stale=None):
+    """nostore: False / True ('does not store the programmed address') / 'noverify' (stores it but never
+    answers VERIFY SHORT ADDRESS).  stale: None / 'all' / 'sym' - units still in initialisation state
+    (enabled or withdrawn, with some random address) from an earlier, unfinished session."""
     avail_arg, avail = _permitted(ctx, which)
     rounds = [0]
     units = []
@@ -190,7 +193,16 @@ def h_commission(ctx, N, readdress, dry_run, which, nostore):
         u.orig = u.short
         u.had_none = bool(E.eq(s, top))
         if nostore and i == 0:
-            u.stores_address = False
+            if nostore == "noverify":
+                u.verifies = False
+            else:
+                u.stores_address = False
+        if stale == "all":
+            u.init = M.ENABLED
+            u.random = ctx.fresh("stale_r%d" % i, 0, 0xFFFFFF)
+        elif stale == "sym" and ctx.fresh_bool("stale%d" % i):
+            u.init = M.WITHDRAWN if ctx.fresh_bool("stale_withdrawn%d" % i) else M.ENABLED
+            u.random = ctx.fresh("stale_r%d" % i, 0, 0xFFFFFF)
         units.append(u)
     bus = M.Bus(units, max_commands=260)
     real = S._find_next
@@ -292,7 +304,7 @@ def h_commission(ctx, N, readdress, dry_run, which, nostore):
             ctx.prove(E.eq(u.short, u.orig), "dry run changed a short address", key=tag + "/dry-run-changed")
         return "dry-run rounds=%d" % rounds[0]
     if nostore and units[0] in part and avail:
-        ctx.fail("a unit did not store its address but no ProgramShortAddressFailure was raised",
+        ctx.fail("a unit did not confirm its new address but no ProgramShortAddressFailure was raised",
                  key=tag + "/silent-failure")
     # --- non participants keep their address
     for u in units:
@@ -344,4 +356,23 @@ def cases(tier):
                            {"N": N, "readdress": True, "dry_run": False, "which": "all", "nostore": True}))
             cs.append(Case("commission-N%d-nostore-new" % N, h_commission,
                            {"N": N, "readdress": False, "dry_run": False, "which": "all", "nostore": True}))
+            cs.append(Case("commission-N%d-stale-new" % N, h_commission,
+                           {"N": N, "readdress": False, "dry_run": False, "which": "all", "nostore": False,
+                            "stale": "sym"}))
+            cs.append(Case("commission-N%d-stale-re" % N, h_commission,
+                           {"N": N, "readdress": True, "dry_run": False, "which": "two", "nostore": False,
+                            "stale": "sym"}))
+        if N >= 2:
+            # a unit that stores the address but never confirms it; with three units the other two can
+            # clash afterwards, and the restart must not forget the failure
+            cs.append(Case("commission-N%d-noverify" % N, h_commission,
+                           {"N": N, "readdress": True, "dry_run": False, "which": "all", "nostore": "noverify"},
+                           timeout_ms=120000))
+        if N == 3:
+            cs.append(Case("commission-N3-nostore", h_commission,
+                           {"N": N, "readdress": True, "dry_run": False, "which": "all", "nostore": True},
+                           timeout_ms=120000))
+            cs.append(Case("commission-N3-stale-new", h_commission,
+                           {"N": N, "readdress": False, "dry_run": False, "which": "all", "nostore": False,
+                            "stale": "all"}, timeout_ms=120000))
     return cs
